@@ -64,6 +64,11 @@ def bloomLookup (H : HashFn) (bin : Bytes) (topic : Bytes) : Bool :=
   let cmp := bloom9 H topic
   (bloom &&& cmp) == cmp
 
+/-- `Bloom.TestBytes(test)` = `b.Test(new(big.Int).SetBytes(test))` = `BloomLookup(b, thatBigInt)`: the item is hashed as
+    `big.Int.Bytes()`, i.e. WITHOUT its leading zero bytes. No caller outside tests; the filter code uses `BloomLookup` on the
+    full address/topic bytes. -/
+def bloomTestBytes (H : HashFn) (bin test : Bytes) : Bool := bloomLookup H bin (beBytes (beNat test))
+
 /-! ## aqua/filters/filter.go : criteria, filterLogs, bloomFilter -/
 
 /-- filter criteria: address alternatives, positional topic alternatives (`[]` = wildcard). -/
